@@ -42,6 +42,14 @@ func init() {
 		},
 		run: runC18,
 	}
+	worlds["C19"] = worldDef{
+		gen: func(seed uint64, tier string) (*Scenario, *Outcome) {
+			sc := genCtx(seed, tier)
+			out := prepareCtx(sc)
+			return sc, out
+		},
+		run: runHist,
+	}
 	for _, p := range []string{"C04", "C08", "C09", "C10"} {
 		p := p
 		worlds[p] = worldDef{
